@@ -188,14 +188,54 @@ def judge_shape(kind, a):
     if got != want: return (f'{kind} outline', want, got)
     return None
 
+def shape_model_req(kind, a):
+    f = lambda v: F(float(v))
+    if kind == 'rect': return ('shape_rect', [f(a['x']), f(a['y']), f(a['width']), f(a['height']), f(a.get('rx', 0.0)), f(a.get('ry', 0.0))])
+    if kind == 'ellipse': return ('shape_ellipse', [f(a['rx']), f(a['ry']), f(a['cx']), f(a['cy'])])
+    if kind == 'circle': return ('shape_circle', [f(a['r']), f(a['cx']), f(a['cy'])])
+    if kind == 'line': return ('shape_line', [f(a['x1']), f(a['y1']), f(a['x2']), f(a['y2'])])
+    pts = [f(t) for t in a['points'].replace(',', ' ').split()]
+    return ('shape_' + kind, [[pts[i], pts[i + 1]] for i in range(0, len(pts), 2)])
+
+BUILDER_NAMES = 'MmHhVvLlCQ'
+
 def corr_shapes(ctx, stats):
-    for kind, a in shape_cases(ctx.rng, ctx.n(300, 5000)):
+    """basic shapes and builder methods: (a) the implementation's as_path commands equal, exactly, those of the model
+    regenerated from svg_types.py (gen/G_shapes.v; polygon / polyline: hand model); (b) the outline is the standard's"""
+    cases = shape_cases(ctx.rng, ctx.n(300, 5000))
+    answers = batch_calls(ctx.model_bin, [shape_model_req(k, a) for k, a in cases])
+    for (kind, a), mod in zip(cases, answers):
         stats['evaluations'] += 1
         stats['distribution']['shape:' + kind] = stats['distribution'].get('shape:' + kind, 0) + 1
+        try:
+            d = CLASSES[kind](**a).as_path().d
+            impl = pathsem.parse_simple(d, num=lambda x: F(float(x))) if d else []
+        except Exception as ex:
+            impl = ['raises', repr(ex)]
+        if canon_path(impl) != canon_path([(c, x) for c, x in mod]) if impl[:1] != ['raises'] else True:
+            stats['disagreements'].append({'what': f'basic shape {kind}: as_path differs from the regenerated model', 'input': jsonable(['shape', kind, a]),
+                                           'impl': jsonable(impl), 'model': jsonable(mod)})
         v = judge_shape(kind, a)
         if v:
             stats['disagreements'].append({'what': f'basic shape {kind}: outline differs from the standard\'s', 'input': jsonable(['shape', kind, a]),
                                            'impl': jsonable(v[2]), 'model': jsonable(v[1])})
+    # builder methods: each writes the command it is named after, with its arguments
+    breqs = []
+    for name in BUILDER_NAMES:
+        k = ARITY[name.upper()]
+        for _ in range(3):
+            breqs.append((name, [ctx.rng.choice(VALS) for _ in range(k)]))
+    answers = batch_calls(ctx.model_bin, [('builder', [name, args]) for name, args in breqs])
+    for (name, args), mod in zip(breqs, answers):
+        stats['evaluations'] += 1
+        stats['distribution']['builder'] = stats['distribution'].get('builder', 0) + 1
+        sp = SVGPath()
+        getattr(sp, name)(*[float(x) for x in args])
+        impl = pathsem.parse_simple(sp.d, num=lambda x: F(float(x)))
+        want = [(name, list(args))]
+        if canon_path(impl) != canon_path([(c, x) for c, x in mod]) or canon_path(impl) != canon_path(want):
+            stats['disagreements'].append({'what': f'builder SVGPath.{name} does not write the command {name}', 'input': jsonable(['builder', name, args]),
+                                           'impl': jsonable(impl), 'model': jsonable(mod)})
 
 # ---------------------------------------------------------------- spec judge on the implementation
 def seg_close(s1, s2, tol):
@@ -386,6 +426,12 @@ def matches_known(v, entry):
     return False
 
 def replay(ctx, w):
+    if 'builder' in w:
+        sp = SVGPath()
+        getattr(sp, w['builder'])(*[float(x) for x in w['args']])
+        got = pathsem.parse_simple(sp.d, num=float)
+        want = [(w['builder'], [float(x) for x in w['args']])]
+        return {'fails': [(c, list(a)) for c, a in got] != want, 'detail': {'written': sp.d}}
     if 'shape' in w:
         v = judge_shape(w['shape'], w['attrs'])
         return {'fails': v is not None, 'detail': v}
